@@ -2867,90 +2867,8 @@ mod tests {
     }
 }
 
-/// Simple glob pattern matching (unchanged)
+/// Glob pattern matching for key names: the same matcher the pub/sub patterns use (escapes are
+/// honoured inside character classes as well, ranges and negation included)
 fn pattern_matches(pattern: &str, text: &str) -> bool {
-    let pattern_chars: Vec<char> = pattern.chars().collect();
-    let text_chars: Vec<char> = text.chars().collect();
-    
-    let mut p_idx = 0;
-    let mut t_idx = 0;
-    let mut star_idx = None;
-    let mut star_match_idx = 0;
-    
-    while t_idx < text_chars.len() {
-        if p_idx < pattern_chars.len() {
-            match pattern_chars[p_idx] {
-                '?' => {
-                    p_idx += 1;
-                    t_idx += 1;
-                    continue;
-                }
-                '*' => {
-                    star_idx = Some(p_idx);
-                    star_match_idx = t_idx;
-                    p_idx += 1;
-                    continue;
-                }
-                '[' => {
-                    if let Some(end) = pattern_chars[p_idx..].iter().position(|&c| c == ']') {
-                        let class_end = p_idx + end;
-                        let negate = p_idx + 1 < class_end && pattern_chars[p_idx + 1] == '^';
-                        let start_idx = if negate { p_idx + 2 } else { p_idx + 1 };
-                        
-                        let mut matched = false;
-                        let mut i = start_idx;
-                        while i < class_end {
-                            if i + 2 < class_end && pattern_chars[i + 1] == '-' {
-                                if text_chars[t_idx] >= pattern_chars[i] && text_chars[t_idx] <= pattern_chars[i + 2] {
-                                    matched = true;
-                                    break;
-                                }
-                                i += 3;
-                            } else {
-                                if text_chars[t_idx] == pattern_chars[i] {
-                                    matched = true;
-                                    break;
-                                }
-                                i += 1;
-                            }
-                        }
-                        
-                        if matched != negate {
-                            p_idx = class_end + 1;
-                            t_idx += 1;
-                            continue;
-                        }
-                    }
-                }
-                '\\' if p_idx + 1 < pattern_chars.len() => {
-                    if pattern_chars[p_idx + 1] == text_chars[t_idx] {
-                        p_idx += 2;
-                        t_idx += 1;
-                        continue;
-                    }
-                }
-                _ => {
-                    if pattern_chars[p_idx] == text_chars[t_idx] {
-                        p_idx += 1;
-                        t_idx += 1;
-                        continue;
-                    }
-                }
-            }
-        }
-        
-        if let Some(star_pos) = star_idx {
-            p_idx = star_pos + 1;
-            star_match_idx += 1;
-            t_idx = star_match_idx;
-        } else {
-            return false;
-        }
-    }
-    
-    while p_idx < pattern_chars.len() && pattern_chars[p_idx] == '*' {
-        p_idx += 1;
-    }
-    
-    p_idx == pattern_chars.len()
+    crate::pubsub::pattern_matches(pattern.as_bytes(), text.as_bytes())
 }
